@@ -67,7 +67,8 @@ Definition conclusion_b (c : tcase) : bool :=
   match t_out c with
   | IInternal => false
   | IAssert => existsb (reject_reason c) (t_cells c)
-  | IOk os => forallb2 (probe_ok c) (t_cells c) os
+  | IOk os => negb (existsb (reject_reason c) (t_cells c))   (* a cell to reject was accepted *)
+              && forallb2 (probe_ok c) (t_cells c) os
   end.
 
 (* library-fitted objects must satisfy the conclusion outright; hand-made states only when the
